@@ -67,55 +67,54 @@ def trimRightByte (c : Nat) (s : Bytes) : Bytes := (trimLeftByte c s.reverse).re
 def isAsciiSpace (b : Nat) : Bool :=
   b = 0x20 || (0x09 ≤ b && b ≤ 0x0D)
 
+/-- `a b` is the UTF-8 encoding of a two-byte white-space rune: U+0085, U+00A0 -/
+def isSp2 (a b : Nat) : Bool := a = 0xC2 && (b = 0x85 || b = 0xA0)
+
+/-- `a b c` is the UTF-8 encoding of a three-byte white-space rune:
+    U+1680, U+2000–U+200A, U+2028, U+2029, U+202F, U+205F, U+3000 -/
+def isSp3 (a b c : Nat) : Bool :=
+  (a = 0xE1 && b = 0x9A && c = 0x80) ||
+  (a = 0xE2 && b = 0x80 && ((0x80 ≤ c && c ≤ 0x8A) || c = 0xA8 || c = 0xA9 || c = 0xAF)) ||
+  (a = 0xE2 && b = 0x81 && c = 0x9F) ||
+  (a = 0xE3 && b = 0x80 && c = 0x80)
+
+/-- `w` is the UTF-8 encoding of exactly one white-space rune (`unicode.IsSpace`) -/
+def isWsRune : Bytes → Bool
+  | [a] => isAsciiSpace a
+  | [a, b] => isSp2 a b
+  | [a, b, c] => isSp3 a b c
+  | _ => false
+
 /-- length (1–3) of a Unicode white-space rune encoded at the head of `s`, 0 if there is none.
     `unicode.IsSpace`: `\t \n \v \f \r ' '`, U+0085, U+00A0, U+1680, U+2000–U+200A, U+2028, U+2029,
-    U+202F, U+205F, U+3000. -/
+    U+202F, U+205F, U+3000.  (This is what `utf8.DecodeRuneInString` + `unicode.IsSpace` see at the
+    front of a Go string: an invalid or truncated sequence decodes to U+FFFD, which is no space.) -/
 def spaceAtHead : Bytes → Nat
   | [] => 0
-  | b :: t =>
-    if isAsciiSpace b then 1 else
-    match b, t with
-    | 0xC2, 0x85 :: _ => 2
-    | 0xC2, 0xA0 :: _ => 2
-    | 0xE1, 0x9A :: 0x80 :: _ => 3
-    | 0xE2, 0x80 :: x :: _ =>
-        if (0x80 ≤ x && x ≤ 0x8A) || x = 0xA8 || x = 0xA9 || x = 0xAF then 3 else 0
-    | 0xE2, 0x81 :: 0x9F :: _ => 3
-    | 0xE3, 0x80 :: 0x80 :: _ => 3
-    | _, _ => 0
+  | [a] => if isAsciiSpace a then 1 else 0
+  | [a, b] => if isAsciiSpace a then 1 else if isSp2 a b then 2 else 0
+  | a :: b :: c :: _ =>
+    if isAsciiSpace a then 1 else if isSp2 a b then 2 else if isSp3 a b c then 3 else 0
 
-/-- the same test on the reversed string (the rune's bytes appear last-first). -/
+/-- the same test on the reversed string (the rune's bytes appear last-first): what
+    `utf8.DecodeLastRuneInString` + `unicode.IsSpace` see at the END of the original string. -/
 def spaceAtHeadRev : Bytes → Nat
   | [] => 0
-  | b :: t =>
-    if isAsciiSpace b then 1 else
-    match b, t with
-    | 0x85, 0xC2 :: _ => 2
-    | 0xA0, 0xC2 :: _ => 2
-    | 0x80, 0x9A :: 0xE1 :: _ => 3
-    | 0x80, 0x80 :: 0xE3 :: _ => 3
-    | 0x9F, 0x81 :: 0xE2 :: _ => 3
-    | x, 0x80 :: 0xE2 :: _ =>
-        if (0x80 ≤ x && x ≤ 0x8A) || x = 0xA8 || x = 0xA9 || x = 0xAF then 3 else 0
-    | _, _ => 0
+  | [a] => if isAsciiSpace a then 1 else 0
+  | [a, b] => if isAsciiSpace a then 1 else if isSp2 b a then 2 else 0
+  | a :: b :: c :: _ =>
+    if isAsciiSpace a then 1 else if isSp2 b a then 2 else if isSp3 c b a then 3 else 0
 
 theorem spaceAtHead_le (s : Bytes) : spaceAtHead s ≤ s.length := by
   unfold spaceAtHead
-  split
-  · simp
-  · split
-    · simp
-    · split <;> (try split) <;> simp
+  split <;> (repeat' split) <;> simp
 
 theorem spaceAtHeadRev_le (s : Bytes) : spaceAtHeadRev s ≤ s.length := by
   unfold spaceAtHeadRev
-  split
-  · simp
-  · split
-    · simp
-    · split <;> (try split) <;> simp
+  split <;> (repeat' split) <;> simp
 
-/-- drop leading white-space runes (fuel = length, so the recursion is structural). -/
+/-- repeatedly drop the `f s` leading bytes while `f s > 0` (fuel = length suffices when
+    `f s ≤ s.length`, so the recursion is structural). -/
 def dropSpaces (f : Bytes → Nat) : Nat → Bytes → Bytes
   | 0, s => s
   | fuel + 1, s =>
@@ -127,7 +126,7 @@ def trimLeftSpace (s : Bytes) : Bytes := dropSpaces spaceAtHead s.length s
 
 def trimRightSpace (s : Bytes) : Bytes := (dropSpaces spaceAtHeadRev s.length s.reverse).reverse
 
-/-- `strings.TrimSpace`. -/
+/-- `strings.TrimSpace` (= `TrimRightFunc(TrimLeftFunc(s, unicode.IsSpace), unicode.IsSpace)`). -/
 def trimSpace (s : Bytes) : Bytes := trimRightSpace (trimLeftSpace s)
 
 /-- is the byte string well-formed UTF-8 (as `utf8.ValidString`)? -/
@@ -154,6 +153,17 @@ def validUTF8 : Bytes → Bool
         (lo ≤ c1 && c1 ≤ hi) && (0x80 ≤ c2 && c2 ≤ 0xBF) && (0x80 ≤ c3 && c3 ≤ 0xBF) && validUTF8 t'
       | _ => false
     else false
+
+/-- on the reversed string: one trailing rune that is the ASCII byte `c` or white space -/
+def spaceOrByteAtHeadRev (c : Nat) (s : Bytes) : Nat :=
+  match s with
+  | [] => 0
+  | b :: _ => if b = c then 1 else spaceAtHeadRev s
+
+/-- `strings.TrimRightFunc(s, func(r rune) bool { return r == c || unicode.IsSpace(r) })`
+    for an ASCII byte `c`. -/
+def trimRightSpaceOrByte (c : Nat) (s : Bytes) : Bytes :=
+  (dropSpaces (spaceOrByteAtHeadRev c) s.length s.reverse).reverse
 
 /-- ASCII upper-casing, as `strings.ToUpper` does on ASCII input. -/
 def toUpper (s : Bytes) : Bytes := s.map fun b => if 97 ≤ b ∧ b ≤ 122 then b - 32 else b
